@@ -125,7 +125,20 @@ func scanGuard(c *core.Ctx) []ob {
 					switch v := x.(type) {
 					case *ast.BinaryExpr:
 						for _, o := range g.ops {
-							if v.Op == o {
+							ordering := o == token.LSS || o == token.GTR || o == token.LEQ || o == token.GEQ
+							if !ordering || len(g.tokens) != 2 {
+								if v.Op == o {
+									opOK = true
+								}
+								continue
+							}
+							// ordering comparisons: the sides matter, and the mirrored spelling (b > a for a < b) is the same test
+							lx, ly := exprString(v.X), exprString(v.Y)
+							mirror := map[token.Token]token.Token{token.LSS: token.GTR, token.GTR: token.LSS, token.LEQ: token.GEQ, token.GEQ: token.LEQ}
+							if v.Op == o && strings.Contains(lx, g.tokens[0]) && strings.Contains(ly, g.tokens[1]) {
+								opOK = true
+							}
+							if v.Op == mirror[o] && strings.Contains(lx, g.tokens[1]) && strings.Contains(ly, g.tokens[0]) {
 								opOK = true
 							}
 						}
